@@ -87,9 +87,9 @@ def conforms(t, ex):
     return None
 
 
-def run(ev, prop, tier, cfgs, max_deviating=400):
-    vlib.build_repo('dbg', targets=['smt'])
-    drv = vlib.build_driver('net_driver', 'dbg')
+def run(ev, prop, tier, cfgs, max_deviating=400, build='dbg'):
+    vlib.build_repo(build, targets=['smt'])
+    drv = vlib.build_driver('net_driver', build)
     rd = vlib.run_dir('%s-satimpl' % prop)
     total, exact, deviating, first_dev = 0, 0, [], None
     for cfg in cfgs:
@@ -112,7 +112,8 @@ def run(ev, prop, tier, cfgs, max_deviating=400):
             vlib.write_lines(inp, all_lines)
             rc, o = vlib.run([drv, 'replay', inp, outp], timeout=1800, check=False)
             outs = vlib.split_executions(vlib.read_lines(outp))
-            crashed = rc < 0 or rc >= 128 or rc == 3     # 3: the driver's handler caught an abort / signal inside the library
+            # 3: the driver's handler caught an abort / signal inside the library; a sanitizer report ends the process too
+            crashed = rc < 0 or rc >= 128 or rc == 3 or 'Sanitizer' in o or 'runtime error:' in o
             if len(outs) != len(chunk) and not crashed:
                 raise vlib.CheckError('replay of the model tests: %d executions for %d tests (rc=%d) %s' % (len(outs), len(chunk), rc, o[-500:]))
             for k, t in enumerate(chunk):
@@ -122,7 +123,7 @@ def run(ev, prop, tier, cfgs, max_deviating=400):
                 ex = [json.loads(x) for x in outs[k][1:]]
                 d = conforms(t, ex)
                 if crashed and k == len(outs) - 1 and '"e":"abort"' not in outs[k][-1]:
-                    outs[k].append(js({'e': 'abort', 'what': 'driver killed, rc=%d' % rc}))
+                    outs[k].append(js({'e': 'abort', 'what': ('driver killed, rc=%d ' % rc) + ' | '.join(x for x in o.splitlines() if 'Sanitizer' in x or 'runtime error' in x)[:200]}))
                     d = d or 'the library crashed' 
                 if d is None:
                     exact += 1
